@@ -433,7 +433,7 @@ REWRITE_UNITS = ('_refactor_ref_pred', '_refactor_ref_expr', '_split_ref_quantif
 def rewrite_eval(ctx: Ctx) -> Evaluator:
     def build():
         mod = ctx.model.module('hpl.rewrite', 'rewrite_eval')
-        calls = {f.name: {x.id for x in ast.walk(f.node) if isinstance(x, ast.Name) and x.id in mod.functions} for f in mod.functions.values()}
+        calls = {f.name: {mod.functions[x.id].name for x in ast.walk(f.node) if isinstance(x, ast.Name) and x.id in mod.functions} for f in mod.functions.values()}
 
         def recursive(name: str) -> bool:
             seen, todo = set(), list(calls.get(name, ()))
